@@ -94,6 +94,7 @@ func init() {
 			"inlined), never accepts without the member's verdict, and re-attaches the discriminator to results; R-CONVSIB - the four native-to-wire converters share the " +
 			"CanConvert-guarded shape. R-DISCTYPE - every store under the discriminator key has the one-of's key type (what Validate asserts); R-CHILDREN - every loop over a container's data calls a data method of every child-schema field on every way round. NOT decided: value equality of round trips, idempotence, CBOR width normalisation, the treat-empty-as-default identification.",
 		Rules: []func(*Ctx){
+			func(c *Ctx) { c.ruleSuppliedNonNil("R-SUPPLIEDNONNIL") },
 			func(c *Ctx) { c.ruleCodec("R-CODEC"); c.R.Floor("R-CODEC", 3) },
 			func(c *Ctx) { c.ruleStoreAll("R-STOREALL") },
 			func(c *Ctx) { c.ruleDiscPresent("R-DISCPRESENT"); c.R.Floor("R-DISCPRESENT", 2) },
@@ -123,6 +124,7 @@ func init() {
 			"len(properties) == 1 (R-MAPORDER/R-EXPLICIT in C04/C12); R-SYMM - one-of dispatch: the member's verdict decides on every operation, data is stripped of a " +
 			"non-inlined discriminator by copy, results get it back. R-NOCOERCE - as in C02 (Validate / Serialize do not coerce discriminators or fields). R-UNSETNIL - the presence function of struct-mapped objects can report a nil pointer, slice and map field as unset (what Unserialize leaves for an absent property). R-DISABLED - every PropertySchema method that hands data to its type (Unserialize, Validate, Serialize, data-mode ValidateCompatibility) returns a possibly-nil error only where Disabled is known false (branch on the flag, or a helper whose nil result implies it). NOT decided: the full truth table over interacting rule graphs and presence subsets.",
 		Rules: []func(*Ctx){
+			func(c *Ctx) { c.ruleSuppliedNonNil("R-SUPPLIEDNONNIL") },
 			func(c *Ctx) { c.ruleDiscPresent("R-DISCPRESENT"); c.R.Floor("R-DISCPRESENT", 2) },
 			func(c *Ctx) { c.ruleRebuilt("R-REBUILT"); c.R.Floor("R-REBUILT", 5) },
 			func(c *Ctx) { c.ruleNoCoerce("R-NOCOERCE"); c.R.Floor("R-NOCOERCE", 3) },
@@ -149,6 +151,7 @@ func init() {
 			func(c *Ctx) { c.ruleChildren("R-CHILDREN"); c.R.Floor("R-CHILDREN", 8) },
 			func(c *Ctx) { c.ruleBoundForm("R-BOUNDFORM") },
 			func(c *Ctx) { c.ruleMustUse("R-MUSTUSE") },
+			func(c *Ctx) { c.ruleConvertedKeys("R-MAPORDER", c.M, c.scopePkg("schema")); c.R.Floor("R-MAPORDER", 2) },
 			func(c *Ctx) { c.ruleNarrow("R-NARROW") },
 			func(c *Ctx) { c.ruleMember("R-MEMBER") },
 			func(c *Ctx) { c.ruleBoolWords("R-BOOLWORDS") },
@@ -219,6 +222,7 @@ func init() {
 			func(c *Ctx) { c.ruleSignalOrder("R-SIGORDER") },
 			func(c *Ctx) { c.rulePairInsert("R-PAIR") },
 			func(c *Ctx) { c.ruleSigChan("R-SIGCHAN") },
+			func(c *Ctx) { c.ruleRelock("R-RELOCK") },
 			func(c *Ctx) { c.ruleOneDecoder("R-ONEDECODER") },
 			func(c *Ctx) { c.ruleIdleCheck("R-IDLECHECK") },
 			func(c *Ctx) { c.ruleAtomic("R-ATOMIC"); c.R.Floor("R-ATOMIC", 4) },
@@ -244,6 +248,7 @@ func init() {
 			func(c *Ctx) { c.ruleSigChan("R-SIGCHAN") },
 			func(c *Ctx) { c.ruleRecover("R-RECOVER") },
 			func(c *Ctx) { c.ruleExactlyOne("R-EXACTLYONE") },
+			func(c *Ctx) { c.ruleSignalNonFatal("R-SIGNONFATAL") },
 			func(c *Ctx) { c.ruleWG("R-WG"); c.R.Floor("R-WG", 8) },
 			func(c *Ctx) { c.ruleMapNil("R-MAPNIL", c.scopePkg("schema", "atp")); c.R.Floor("R-MAPNIL", 10) },
 		},
@@ -263,6 +268,7 @@ func init() {
 			func(c *Ctx) { c.ruleDeliver("R-DELIVER") },
 			func(c *Ctx) { c.ruleSticky("R-STICKY") },
 			func(c *Ctx) { c.ruleSigChan("R-SIGCHAN") },
+			func(c *Ctx) { c.ruleRelock("R-RELOCK") },
 			func(c *Ctx) { c.ruleMustPass("R-MUSTPASS") },
 			func(c *Ctx) { c.ruleAtomic("R-ATOMIC"); c.R.Floor("R-ATOMIC", 4) },
 			func(c *Ctx) { c.ruleWG("R-WG"); c.R.Floor("R-WG", 8) },
